@@ -239,6 +239,9 @@ TWIN_FILES = {
 # ---------------------------------------------------------------------------------
 TEXTUAL = [
     # prop, id, file, old, new
+    ('C18', 'bool-mask-not-in-data-context-svd', 'tensorly/tenalg/svd.py', '        mask = tl.tensor(mask, **tl.context(matrix))\n', ''),
+    ('C18', 'bool-mask-not-in-data-context-tucker', 'tensorly/decomposition/_tucker.py', '    if mask is not None:\n        # in the context of the data: `1 - mask` of a boolean mask is an int64 array\n        mask = tl.tensor(mask, **tl.context(tensor))\n\n    # SVD init\n', '    # SVD init\n'),
+    ('C18', 'bool-mask-not-in-data-context-error-calc', 'tensorly/decomposition/_cp.py', '            mask = tl.tensor(mask, **tl.context(tensor))\n            tensor = tensor * mask + low_rank_component * (1 - mask)', '            tensor = tensor * mask + low_rank_component * (1 - mask)'),
     ('C05', 'nndsvd-zero-pair-not-skipped', 'tensorly/tenalg/svd.py', '        elif m_n > 0:\n', '        elif m_n >= 0:\n'),
     ('C04', 'cp-normalize-threshold-guard', 'tensorly/cp_tensor.py', '        scales_non_zero = T.where(\n            scales == 0, T.ones(T.shape(scales), **T.context(factor)), scales\n        )\n        weights = weights * scales\n', '        scales_non_zero = T.where(\n            scales < 1e-12, T.ones(T.shape(scales), **T.context(factor)), scales\n        )\n        weights = weights * scales\n'),
     ('C04', 'cp-normalize-guard-branches-swapped', 'tensorly/cp_tensor.py', '        scales_non_zero = T.where(\n            scales == 0, T.ones(T.shape(scales), **T.context(factor)), scales\n        )\n        weights = weights * scales\n', '        scales_non_zero = T.where(\n            scales != 0, T.ones(T.shape(scales), **T.context(factor)), scales\n        )\n        weights = weights * scales\n'),
